@@ -142,6 +142,12 @@ def _is_rsa(o):
     return type(o).__module__.startswith('rsatoolbox')
 
 
+def _is_desc_name(name):
+    """is the dictionary stored under this attribute / key / parameter name a descriptor dictionary (with a managed 'index')?"""
+    name = str(name)
+    return name.endswith('descriptors') or name in ('descriptor', 'desc_new', 'dictionary', 'd_dict')
+
+
 def fp(o, out=None, path='', desc=False, seen=None, depth=0):
     """flat dict  component-path -> hashable value; `desc` = we are inside a *descriptors dictionary"""
     if out is None:
@@ -163,7 +169,7 @@ def fp(o, out=None, path='', desc=False, seen=None, depth=0):
         for k, v in o.items():
             if desc and k == 'index':
                 continue
-            fp(v, out, f'{path}[{k!r}]', str(k).endswith('descriptors'), seen, depth + 1)
+            fp(v, out, f'{path}[{k!r}]', _is_desc_name(k), seen, depth + 1)
     elif isinstance(o, (list, tuple, set, frozenset)):
         if id(o) in seen:
             return out
@@ -193,7 +199,7 @@ def fp(o, out=None, path='', desc=False, seen=None, depth=0):
         seen.add(id(o))
         out[path + '{type}'] = type(o).__name__
         for k, v in vars(o).items():
-            fp(v, out, f'{path}.{k}', k.endswith('descriptors'), seen, depth + 1)
+            fp(v, out, f'{path}.{k}', _is_desc_name(k), seen, depth + 1)
     else:
         out[path] = (type(o).__name__, repr(o))
     return out
@@ -1634,7 +1640,7 @@ class NotExercised(Exception):
 
 
 def _invoke(case, tmp):
-    """build pool arguments for `case` and call the real function.  -> (rec, args, result)"""
+    """build pool arguments for `case`; -> (rec, ordered dict of arguments, zero-argument callable of the real function)"""
     rec = recs().get(case['fn'])
     if rec is None:
         raise NotExercised(f"callable {case['fn']} does not exist on this tree")
@@ -1657,43 +1663,79 @@ _CACHE = {}
 def _cached(kind, case, fn):
     key = (kind, json.dumps(_base(case), sort_keys=True))
     if key not in _CACHE:
-        if len(_CACHE) > 64:
+        if len(_CACHE) > 8:
             _CACHE.clear()
         _CACHE[key] = fn(_base(case))
     return _CACHE[key]
 
 
+def _collapse(comp):
+    """stable component label: sequence positions and digits dropped, cut after the descriptor dictionary"""
+    import re
+    p = re.sub(r"\['([^']*)'\]", r'[\1]', comp)
+    p = re.sub(r'\{(keys|len|type)\}', '', p)
+    p = re.sub(r'\[(\d+|\*)\]', '', p)
+    p = re.sub(r'\d+', '*', p)
+    m = re.search(r'descriptors\]?', p)
+    if m:
+        p = p[:m.end()]
+    return p
+
+
+def _fp_args(args):
+    return {n: fp(a, desc=_is_desc_name(n)) for n, a in args.items()}
+
+
 def frame_diffs(case):
-    """-> ('ok', [(label, description)]) | ('not-exercised', reason)"""
+    """clause 1.  -> ('ok', [(label, description)], info) | ('not-exercised', reason, None)
+    info = (kinds of mutable things in the result, kinds in the arguments, result has dict/object content, seconds)"""
+    import time
     tmp = tempfile.mkdtemp(prefix='c12_')
     try:
         with _quiet():
             try:
                 rec, args, call = _invoke(case, tmp)
             except NotExercised as e:
-                return 'not-exercised', str(e)
-            before = {n: fp(a) for n, a in args.items()}
+                return 'not-exercised', str(e), None
+            before = _fp_args(args)
+            t0 = time.time()
             try:
-                call()
-            except Exception as e:   # the generated arguments are not valid for this callable: clause not applicable
-                return 'not-exercised', f'call raised {type(e).__name__}: {str(e)[:150]}'
-            after = {n: fp(a) for n, a in args.items()}
+                result = call()
+            except Exception as e:   # the generated arguments are not valid for this callable: the property is silent
+                return 'not-exercised', f'call raised {type(e).__name__}: {str(e)[:150]}', None
+            dt = time.time() - t0
+            after = _fp_args(args)
+            info = (sorted({k for k, _, _ in _targets(result)}), sorted({k for k, _, _ in _targets(list(args.values()))}),
+                    _has_structure(result), dt)
         allowed = MUTATORS.get(rec.qual)
-        out = []
+        out, done = [], set()
         for n in args:
             if n == allowed:
                 continue
             for comp, desc in fp_diff(before[n], after[n]):
-                out.append((f'{rec.short}:modifies-{n}{comp}', f'{rec.short}({case["flavour"]},v{case["variant"]}) changed its argument '
-                            f'{n}{desc}'))
-        return 'ok', out
+                label = f'{rec.short}:modifies-{_collapse(n + comp)}'
+                if label in done:
+                    continue
+                done.add(label)
+                out.append((label, f'{rec.short}({case["flavour"]},v{case["variant"]}) changed its argument {n}{desc}'))
+        return 'ok', out, info
     finally:
         shutil.rmtree(tmp, ignore_errors=True)
 
 
+def _has_structure(o, depth=0):
+    """does the value contain anything but numbers / arrays (a dict, a list of labels, an rsatoolbox object)?"""
+    if isinstance(o, (np.ndarray, str, bytes, int, float, bool, complex, type(None), np.generic)):
+        return False
+    if isinstance(o, (tuple, list)) and depth < 4:
+        return any(_has_structure(x, depth + 1) for x in o) or \
+            (isinstance(o, list) and any(isinstance(x, (str, int, float)) for x in o))
+    return True
+
+
 # ---- in-place operations applied to one side ----------------------------------------------------------
 def _targets(o, path='', desc=False, out=None, seen=None, depth=0):
-    """walk the object graph: -> list of (kind, object, path) with kind in rdms / dataset / data-array / desc-array"""
+    """walk the object graph: -> list of (kind, object, path) with kind in rdms / dataset / array"""
     if out is None:
         out, seen = [], set()
     if depth > 8 or id(o) in seen:
@@ -1702,9 +1744,8 @@ def _targets(o, path='', desc=False, out=None, seen=None, depth=0):
         return out
     seen.add(id(o))
     if isinstance(o, np.ndarray):
-        out.append(('desc-array' if desc else 'data-array', o, path))
+        out.append(('array', o, path))
         return out
-    tn = type(o).__name__
     mro = [c.__name__ for c in type(o).__mro__]
     if 'RDMs' in mro and _is_rsa(o):
         out.append(('rdms', o, path))
@@ -1714,16 +1755,15 @@ def _targets(o, path='', desc=False, out=None, seen=None, depth=0):
         for k, v in o.items():
             if desc and k == 'index':
                 continue
-            _targets(v, f'{path}[{k!r}]', desc or str(k).endswith('descriptors'), out, seen, depth + 1)
+            _targets(v, f'{path}[{k!r}]', desc or _is_desc_name(k), out, seen, depth + 1)
     elif isinstance(o, (list, tuple)):
         for i, v in enumerate(o):
             _targets(v, f'{path}[{i}]', desc, out, seen, depth + 1)
     elif _is_rsa(o) and hasattr(o, '__dict__'):
         for k, v in vars(o).items():
-            _targets(v, f'{path}.{k}', k.endswith('descriptors'), out, seen, depth + 1)
-    elif type(o).__module__.startswith('scipy.sparse') and hasattr(o, 'data') and isinstance(o.data, np.ndarray):
-        out.append(('data-array', o.data, path + '.data'))
-    del tn
+            _targets(v, f'{path}.{k}', _is_desc_name(k), out, seen, depth + 1)
+    elif type(o).__module__.startswith('scipy.sparse') and isinstance(getattr(o, 'data', None), np.ndarray):
+        out.append(('array', o.data, path + '.data'))
     return out
 
 
@@ -1731,7 +1771,7 @@ def _scribble(a):
     if not isinstance(a, np.ndarray) or a.size == 0 or not a.flags.writeable:
         return False
     k = a.dtype.kind
-    if k == 'f' or k == 'c':
+    if k in 'fc':
         a[...] = -9876.5
     elif k == 'b':
         a[...] = ~a
@@ -1751,15 +1791,15 @@ def _unsorted_key(d, n):
         try:
             vals = list(v)
             if len(vals) == n and n > 1 and not isinstance(vals[0], (list, dict, np.ndarray)):
-                o = np.argsort(vals, kind='stable')
-                if not np.array_equal(o, np.arange(n)):
+                if not np.array_equal(np.argsort(vals, kind='stable'), np.arange(n)):
                     return k
         except Exception:
             continue
     return None
 
 
-MUTS = ('reorder', 'sort_by', 'append', 'dataset-sort_by', 'array-write', 'descriptor-array-write')
+MUTS = ('reorder', 'sort_by', 'append', 'dataset-sort_by', 'array-write')
+MUT_NEEDS = {'reorder': 'rdms', 'sort_by': 'rdms', 'append': 'rdms', 'dataset-sort_by': 'dataset', 'array-write': 'array'}
 
 
 def _apply(mut, targets):
@@ -1796,97 +1836,342 @@ def _apply(mut, targets):
                     continue
                 t.sort_by(k)
                 n += 1
-            elif mut == 'array-write' and kind == 'data-array':
-                n += bool(_scribble(t))
-            elif mut == 'descriptor-array-write' and kind == 'desc-array':
+            elif mut == 'array-write' and kind == 'array':
                 n += bool(_scribble(t))
         except Exception:
             continue
     return n
 
 
-def _has_mutable(o):
-    return bool(_targets(o)) or any(isinstance(x, (list, dict)) for x in [o])
-
-
-def fresh_diffs(case, muts=MUTS):
-    """-> ('ok', [(label, description)], n_applied) | ('not-exercised', reason)"""
+def fresh_diffs(case, plan=None):
+    """clause 2.  plan = list of (direction, mutator) (default: all).
+    -> ('ok', [(label, description)], number of in-place operations applied) | ('not-exercised', reason, 0)"""
     rec0 = recs().get(case['fn'])
     if rec0 is None:
         return 'not-exercised', 'no such callable', 0
     if rec0.qual in MUTATORS or rec0.qual in VIEW_BY_CONTRACT:
         return 'not-exercised', 'in-place operation / view by contract: clause 2 not applicable', 0
-    out, applied = [], 0
-    for direction in ('child', 'parent'):
-        for mut in muts:
-            tmp = tempfile.mkdtemp(prefix='c12_')
-            try:
-                with _quiet():
-                    try:
-                        rec, args, call = _invoke(case, tmp)
-                        result = call()
-                    except NotExercised as e:
-                        return 'not-exercised', str(e), 0
-                    except Exception as e:
-                        return 'not-exercised', f'call raised {type(e).__name__}: {str(e)[:150]}', 0
-                    if result is None or isinstance(result, (str, bytes, int, float, bool, complex, np.generic)):
-                        return 'ok', [], 0       # a number / nothing: cannot be aliased
-                    src = list(args.values())
-                    touched, other = (result, src) if direction == 'child' else (src, result)
-                    tg = _targets(touched)
+    if plan is None:
+        plan = [(d, m) for d in ('child', 'parent') for m in MUTS]
+    out, applied, done = [], 0, set()
+    for direction, mut in plan:
+        tmp = tempfile.mkdtemp(prefix='c12_')
+        try:
+            with _quiet():
+                try:
+                    rec, args, call = _invoke(case, tmp)
+                    result = call()
+                except NotExercised as e:
+                    return 'not-exercised', str(e), 0
+                except Exception as e:
+                    return 'not-exercised', f'call raised {type(e).__name__}: {str(e)[:150]}', 0
+                if result is None or isinstance(result, (str, bytes, int, float, bool, complex, np.generic)):
+                    return 'ok', [], 0       # a number / nothing: cannot be aliased
+                if direction == 'child':
+                    tg = _targets(result)
                     if not tg:
                         continue
-                    before = fp(other)
+                    before = _fp_args(args)
                     k = _apply(mut, tg)
-                    if not k:
+                    after = _fp_args(args)
+                    diffs = [(n, c, d) for n in args for c, d in fp_diff(before[n], after[n])]
+                else:
+                    tg = _targets(list(args.values()))
+                    if not tg:
                         continue
-                    applied += k
-                    after = fp(other)
-                d = fp_diff(before, after)
-                if d:
-                    verb = 'relabels' if all('descriptors' in c for c, _ in d) else 'rewrites'
-                    who, whom = ('child', 'parent') if direction == 'child' else ('parent', 'child')
-                    names = list(args.keys())
-
-                    def nm(desc):
-                        if direction == 'child' and desc.startswith('['):
-                            i = int(desc[1:desc.index(']')])
-                            return names[i] + desc[desc.index(']') + 1:]
-                        return ('result' if direction == 'parent' else '') + desc
-                    out.append((f'{rec.short}:{who}-{mut}-{verb}-{whom}',
-                                f'{rec.short}({case["flavour"]},v{case["variant"]}): {mut} on the {"result" if who == "child" else "source"} '
-                                f'changed the {"source" if who == "child" else "result"}: ' + '; '.join(nm(x) for _, x in d[:3])))
-            finally:
-                shutil.rmtree(tmp, ignore_errors=True)
+                    before = fp(result)
+                    k = _apply(mut, tg)
+                    after = fp(result)
+                    diffs = [('', c, d) for c, d in fp_diff(before, after)]
+                applied += k
+            groups = {}
+            for n, c, d in diffs:
+                groups.setdefault(n, []).append((c, d))
+            for n, lst in groups.items():
+                verb = 'relabels' if all('descriptors' in (n + c) for c, _ in lst) else 'rewrites'
+                if direction == 'child':
+                    label = f'{rec.short}:child-{mut}-{verb}-parent.{n}'
+                    text = (f'{rec.short}({case["flavour"]},v{case["variant"]}): {mut} on the RESULT changed the argument {n}: '
+                            + '; '.join(n + d for _, d in lst[:2]))
+                else:
+                    label = f'{rec.short}:parent-{mut}-{verb}-child{n}'
+                    text = (f'{rec.short}({case["flavour"]},v{case["variant"]}): {mut} on the ARGUMENTS changed the result: '
+                            + '; '.join('result' + d for _, d in lst[:2]))
+                if label not in done:
+                    done.add(label)
+                    out.append((label, text))
+        finally:
+            shutil.rmtree(tmp, ignore_errors=True)
     return 'ok', out, applied
 
 
-def dev_survey(flavours=FLAVOURS, only=None):
-    """development helper: which callables can be exercised, which diffs appear"""
-    import time
+def plan_for(info, thorough):
+    """which (direction, mutator) pairs can have an effect, given what the first call showed"""
+    res_kinds, arg_kinds, structured, _ = info
+    plan = []
+    for m in MUTS:
+        if MUT_NEEDS[m] in res_kinds:
+            plan.append(('child', m))
+    for m in MUTS:
+        if MUT_NEEDS[m] in arg_kinds:
+            # reorder / sort_by / append / dataset-sort_by re-bind the data array of the object they are applied to and
+            # write only into its dictionaries: a result made of numbers and arrays only cannot be reached by them
+            if m != 'array-write' and not structured and not thorough:
+                continue
+            if not res_kinds and not structured:
+                continue
+            plan.append(('parent', m))
+    return plan
+
+
+# =====================================================================================================
+# oracles
+# =====================================================================================================
+def _pick(status, diffs, case):
+    if status != 'ok':
+        return None
+    watch = case.get('watch')
+    if watch is not None:
+        for label, text in diffs:
+            if label == watch:
+                return text
+        return None
+    if diffs:
+        return ' || '.join(t for _, t in diffs[:4])
+    return None
+
+
+@oracle('C12/frame')
+def orc_frame(case):
+    """clause 1: every argument's fingerprint is the same before and after the call.
+    case: fn (qualified name below rsatoolbox), flavour, variant, seed [, watch = only this label]"""
+    st, diffs, _ = _cached('frame', case, frame_diffs)
+    return _pick(st, diffs, case)
+
+
+@oracle('C12/fresh')
+def orc_fresh(case):
+    """clause 2: result and arguments are independent under each documented in-place operation / array write.
+    case as for C12/frame [, plan = list of [direction, mutator]]"""
+    plan = case.get('plan')
+
+    def run(base):
+        return fresh_diffs(base, [tuple(x) for x in plan] if plan else None)
+    st, diffs, _ = _cached('fresh' + json.dumps(plan), case, run)
+    return _pick(st, diffs, case)
+
+
+@oracle('C12/mean-weights')
+def orc_mean_weights(case):
+    """RDMs.mean(weights) on partial RDMs: weights array, stored weights descriptor, dissimilarities and descriptors of
+    the source unchanged bit for bit; and the value is the NaN-ignoring weighted mean (so the check is not vacuous)."""
+    from rsatoolbox.rdm import RDMs
+    rs = np.random.RandomState(case['seed'])
+    n_rdm, n_cond = case['n_rdm'], case['n_cond']
+    n_pair = n_cond * (n_cond - 1) // 2
+    d = rs.rand(n_rdm, n_pair) + 0.5
+    for r, c in case['nan_at']:
+        d[r % n_rdm, c % n_pair] = np.nan
+    w = (rs.rand(n_rdm, n_pair) + 0.5)
+    for r, c in case.get('w_nan_at', []):
+        w[r % n_rdm, c % n_pair] = np.nan
+    kind = case['weights']
+    if kind == 'f64':
+        W = w.copy()
+    elif kind == 'f64-fortran':
+        W = np.asfortranarray(w)
+    elif kind == 'f64-view':
+        big = np.zeros((n_rdm, n_pair + 2))
+        big[:, 1:-1] = w
+        W = big[:, 1:-1]
+    elif kind == 'f32':
+        W = w.astype(np.float32)
+        w = W.astype(float)
+    elif kind == 'int':
+        W = np.round(w * 4).astype(int) + 1
+        w = W.astype(float)
+    elif kind == 'none':
+        W = None
+        w = np.ones_like(d)
+    else:
+        raise ValueError(kind)
+    by_name = case['by_name']
+    rd = {'subj': [f's{i}' for i in range(n_rdm)]}
+    if by_name:
+        rd['wts'] = W
+    rdms = RDMs(d.copy(), dissimilarity_measure='euclidean', rdm_descriptors=rd,
+                pattern_descriptors={'conds': [f'c{i}' for i in range(n_cond)]}, descriptors={'roi': 'V1'})
+    before_obj = fp(rdms)
+    before_w = fp(W)
+    with _quiet():
+        res = rdms.mean(weights=('wts' if by_name else W))
+    if fp(W) != before_w:
+        return f'mean(weights={"name of rdm_descriptor" if by_name else kind + " array"}) modified the weights: ' + \
+            '; '.join(t for _, t in fp_diff(before_w, fp(W))[:2])
+    if fp(rdms) != before_obj:
+        return 'mean(weights) modified its source: ' + '; '.join(t for _, t in fp_diff(before_obj, fp(rdms))[:2])
+    ww = np.where(np.isnan(d), np.nan, w) if kind == 'none' else w
+    with np.errstate(all='ignore'):
+        want = np.nansum(d * ww, axis=0) / np.nansum(ww, axis=0)
+    got = res.dissimilarities[0]
+    ok = np.isnan(want) == np.isnan(got)
+    if not ok.all() or not np.allclose(got[~np.isnan(want)], want[~np.isnan(want)], rtol=1e-9, atol=1e-12):
+        return f'mean(weights) is not the NaN-ignoring weighted mean: expected {want[:4]}, got {got[:4]}'
+    return None
+
+
+# callables of the unchanged tree that cannot be called successfully with any pool argument, with the reason
+EXPECT_NOT_CALLABLE = {
+    'data.base.DatasetBase.__eq__': 'abstract: raises NotImplementedError',
+    'data.base.DatasetBase.copy': 'abstract: raises NotImplementedError',
+    'data.base.DatasetBase.split_obs': 'abstract: raises NotImplementedError',
+    'data.base.DatasetBase.split_channel': 'abstract: raises NotImplementedError',
+    'data.base.DatasetBase.subset_obs': 'abstract: raises NotImplementedError',
+    'data.base.DatasetBase.subset_channel': 'abstract: raises NotImplementedError',
+    'model.model.Model.predict': 'abstract: raises NotImplementedError',
+    'model.model.Model.predict_rdm': 'abstract: raises NotImplementedError',
+    'util.vis_utils.Weighted_MDS.fit': 'installed scikit-learn has no BaseEstimator._validate_data (AttributeError)',
+    'util.vis_utils.Weighted_MDS.fit_transform': 'installed scikit-learn has no BaseEstimator._validate_data (AttributeError)',
+}
+
+# expensive callables: in the quick tier one flavour and the first two variants only
+SLOW = {'inference.evaluate.eval_dual_bootstrap', 'inference.evaluate.crossval', 'inference.boot_testset.bootstrap_testset_rdm',
+        'inference.boot_testset.bootstrap_testset', 'inference.boot_testset.bootstrap_testset_pattern',
+        'model.fitter.fit_optimize', 'model.fitter.fit_optimize_positive', 'rdm.compare.compare_neg_riemannian_distance',
+        'model.model.Model.fit', 'inference.evaluate.eval_dual_bootstrap_random', 'inference.evaluate.bootstrap_crossval'}
+
+
+def _flavours(rec, thorough):
+    if thorough:
+        return FLAVOURS
+    if rec.qual in SLOW:
+        return ('array',)
+    takes_rdms = rec.module.split('.')[0] in ('rdm', 'model', 'inference') or rec.module in ('util.pooling', 'util.rdm_utils') \
+        or rec.name == 'pool_rdm'
+    if rec.module.startswith('rdm.calc'):
+        takes_rdms = False
+    return ('array', 'neg', 'nan', 'plain') if takes_rdms else ('array', 'neg', 'plain')
+
+
+def sweep(thorough, visit, only=None):
+    """enumerate the cases of the sweep; visit(rec, case, status, frame result, fresh result)"""
+    exercised = {}
     for q, rec in recs().items():
         if only and only not in q:
             continue
+        exercised.setdefault(q, 0)
         nv = MAX_VARIANTS if q in SPECS else AUTO_VARIANTS
-        stat, labels, why = 0, set(), set()
-        t0 = time.time()
-        for fl in flavours:
-            for v in range(nv):
-                case = dict(fn=q, flavour=fl, variant=v, seed=0)
-                st, d = frame_diffs(case)
-                if st != 'ok':
-                    if 'no such variant' in d:
-                        break
-                    why.add(d[:110])
-                    continue
-                stat += 1
-                labels |= {x for x, _ in d}
-                st2, d2, k = fresh_diffs(case)
-                if st2 == 'ok':
-                    labels |= {x for x, _ in d2}
-        print(f'{q}: ok={stat} t={time.time()-t0:.2f}')
-        for x in sorted(labels):
-            print('     #', x)
-        if not stat:
-            for w in sorted(why):
-                print('     !', w)
+        if not thorough and q in SLOW:
+            nv = min(nv, 2)
+        why = set()
+        for seed in ((0, 1) if thorough else (0,)):
+            for fl in _flavours(rec, thorough):
+                for v in range(nv):
+                    if not thorough and q == 'rdm.compare.compare' and COMPARE_METHODS[min(v, 10)] == 'neg_riem_dist' and fl != 'array':
+                        continue
+                    case = dict(fn=q, flavour=fl, variant=v, seed=seed)
+                    st, diffs, info = _cached('frame', case, frame_diffs)
+                    if st != 'ok':
+                        if 'no such variant' in diffs:
+                            break
+                        why.add(diffs)
+                        continue
+                    exercised[q] += 1
+                    plan = plan_for(info, thorough)
+                    fr = None
+                    if plan and q not in MUTATORS and q not in VIEW_BY_CONTRACT:
+                        pl = [list(x) for x in plan]
+                        fr = (pl,) + _cached('fresh' + json.dumps(pl), case, lambda b: fresh_diffs(b, plan))
+                    visit(rec, case, diffs, fr)
+        if not exercised[q]:
+            exercised[q] = -1
+            visit(rec, None, sorted(why), None)
+    return exercised
+
+
+def tier_c(run, thorough):
+    bds = []
+    n_rec = len(recs())
+    bf = Bounded(run, 'C12/frame', 'C12/frame/oracle/arguments-unchanged', '', function='every discovered public callable')
+    bi = Bounded(run, 'C12/fresh', 'C12/fresh/oracle/result-source-independent', '', function='every discovered public callable')
+    not_called = {}
+    n_ops = [0]
+
+    def visit(rec, case, diffs, fr):
+        if case is None:
+            not_called[rec.qual] = diffs
+            return
+        if not diffs:
+            bf.check(orc_frame, case, 'unchanged', function=rec.qual)
+        for label, _ in diffs:
+            bf.check(orc_frame, dict(case, watch=label), label, function=rec.qual)
+        if fr is not None:
+            pl, st, fd, k = fr
+            n_ops[0] += k
+            c2 = dict(case, plan=pl)
+            if st == 'ok' and not fd:
+                bi.check(orc_fresh, c2, 'independent', nontrivial=bool(k), function=rec.qual)
+            for label, _ in (fd if st == 'ok' else []):
+                bi.check(orc_fresh, dict(c2, watch=label), label, function=rec.qual)
+    ex = sweep(thorough, visit)
+    unexpected = sorted(q for q in not_called if q not in EXPECT_NOT_CALLABLE)
+    n_ok = sum(1 for v in ex.values() if v > 0)
+    dom = (f'{n_rec} public callables discovered by introspection of rsatoolbox.{{{",".join(PACKAGES)}}}; {n_ok} called successfully with '
+           f'pool arguments ({sum(v for v in ex.values() if v > 0)} calls), {len(not_called)} never callable '
+           f'({len(not_called) - len(unexpected)} abstract / environment, listed in EXPECT_NOT_CALLABLE'
+           + (f'; NOT COVERED new callables: {unexpected}' if unexpected else '') + '); pool: RDMs 4x5 (5x7 for inference) / Dataset 8x5 / '
+           f'TemporalDataset 6x3x4 / 4 model classes / Result / arrays, flavours {"all 5" if thorough else "array, neg, nan, plain"} '
+           f'(list- vs ndarray-valued descriptors, negative values, NaN pairs, no descriptors), <= {MAX_VARIANTS} argument variants per '
+           f'callable, seeds {"0,1" if thorough else "0"}')
+    bf.domain = dom
+    bi.domain = dom + f'; in-place operations {list(MUTS)} applied to result and to arguments on a fresh call each ({n_ops[0]} applications)'
+    for q in unexpected:
+        run.notes.append(f'C12 tier C: discovered callable {q} could not be called with pool arguments: {not_called[q][:2]}')
+    bf.done()
+    bi.done()
+    bds += [bf, bi]
+
+    bm = Bounded(run, 'C12/mean-weights', 'C12/RDMs.mean/oracle/weights-unchanged',
+                 'RDMs.mean on 2..3 RDMs x 3..4 conditions; every placement of 1 NaN pair (+ a second fixed one) ; weights None / '
+                 'float64 C / Fortran / view / float32 / int, given as array or as name of an rdm_descriptor; weights with and '
+                 'without own NaNs', exhaustive=True, function='RDMs.mean')
+    for n_rdm, n_cond in ((2, 3), (3, 4)) if not thorough else ((2, 3), (3, 4), (2, 5)):
+        n_pair = n_cond * (n_cond - 1) // 2
+        for r in range(n_rdm):
+            for c in range(n_pair):
+                for kind in ('none', 'f64', 'f64-fortran', 'f64-view', 'f32', 'int'):
+                    for by_name in (False, True):
+                        if kind == 'none' and by_name:
+                            continue
+                        for wn in ([], [[r, c]], [[r + 1, c + 1]]):
+                            if wn and kind in ('none', 'int'):
+                                continue
+                            case = dict(seed=7 + r, n_rdm=n_rdm, n_cond=n_cond, nan_at=[[r, c], [0, 1]], weights=kind,
+                                        by_name=by_name, w_nan_at=wn)
+                            bm.check(orc_mean_weights, case, 'weights-' + kind + ('-by-name' if by_name else ''), function='RDMs.mean')
+    bm.done()
+    bds.append(bm)
+    return bds
+
+
+def replay(path):
+    return replay_file(path)
+
+
+def dev_survey(thorough=False, only=None):
+    """development helper: which callables can be exercised, which labels appear"""
+    labels = {}
+
+    def visit(rec, case, diffs, fr):
+        if case is None:
+            print('NOT CALLED', rec.qual, diffs[:3])
+            return
+        for label, text in diffs:
+            labels.setdefault(label, text)
+        if fr is not None and fr[1] == 'ok':
+            for label, text in fr[2]:
+                labels.setdefault(label, text)
+    ex = sweep(thorough, visit, only)
+    for k, v in sorted(labels.items()):
+        print(k, '\n      ', v[:300])
+    print(len(labels), 'labels;', sum(1 for v in ex.values() if v > 0), 'exercised of', len(ex))
